@@ -69,6 +69,7 @@ typedef struct {
 	uint32_t calls[F_LAST];		/* how often each injectable function was called while armed */
 	uint32_t injected[F_LAST];
 	uint32_t double_free, close_unknown;
+	uint32_t mutex_gone;		/* unlocks that found their mutex destroyed/overwritten while still held (see tp_common.c) */
 	uint32_t vp_hits[32];
 } tp_res_stats;
 
@@ -239,6 +240,47 @@ typedef struct {
 } c06b_out;
 void c06b_run(const c06b_case *c, c06b_out *out);
 
+/* (c) process events: real child processes, pidfd accounting through the interposed syscall() */
+#define C06C_MAX_CH 3
+#define C06C_MAX_CMDS 16
+enum { P_ADD = 1, P_ENABLE, P_DISABLE, P_DEL, P_EXIT, P_SLEEP };
+typedef struct {
+	uint8_t cmd, ch;
+	uint8_t outside;	/* registration call issued from outside the owning thread */
+	uint16_t flags;		/* P_ADD / P_ENABLE: TP_F_* */
+	uint32_t fflags;	/* P_ADD / P_ENABLE: TP_FF_P_* (unknown bits = malformed) */
+	uint8_t arg;		/* P_SLEEP: milliseconds */
+	uint8_t await;		/* the model expects the channel's callback after this step: wait for it (ceiling) */
+} c06c_cmd;
+typedef struct {
+	uint8_t nch;
+	uint8_t exit_code[C06C_MAX_CH];
+	uint8_t by_signal[C06C_MAX_CH];	/* the child is killed with SIGKILL instead of exiting by itself */
+	uint8_t ncmds;
+	c06c_cmd cmds[C06C_MAX_CMDS];
+	tp_plans plans;
+} c06c_case;
+typedef struct {
+	int rc;
+	uint32_t fired_at_ret[C06C_MAX_CH], fired_after[C06C_MAX_CH], fired_late[C06C_MAX_CH];
+	uint32_t live_fds;		/* library-owned descriptors after the step settled */
+	uint64_t tpdata[C06C_MAX_CH];
+} c06c_step;
+typedef struct {
+	int setup_rc, hang;
+	int never_fired_step;
+	uint32_t pre_live_fds;		/* library-owned descriptors before the pool of this case exists */
+	uint32_t base_live_fds;		/* library-owned descriptors once the pool of this case runs */
+	uint16_t last_event[C06C_MAX_CH], last_flags[C06C_MAX_CH];
+	uint32_t last_fflags[C06C_MAX_CH];
+	uint64_t last_data[C06C_MAX_CH];	/* wait status handed to the callback */
+	uint8_t wrong_thread[C06C_MAX_CH];
+	uint32_t pidfd_opens;
+	c06c_step s[C06C_MAX_CMDS];
+	tp_res_stats res;
+} c06c_out;
+void c06c_run(const c06c_case *c, c06c_out *out);
+
 /* ---------------- C16: I/O tasks ---------------- */
 #define C16_MAX_PIECES 16
 #define C16_MAX_CB 96
@@ -260,7 +302,9 @@ typedef struct {
 	c16_piece pieces[C16_MAX_PIECES];
 	uint8_t end;		/* peer at the end: 0 stays open, 1 close, 2 shutdown(SHUT_WR) */
 	uint8_t cb_policy;	/* 0 CONTINUE until window full / eof / error; 1 after the first callback: tp_task_stop + NONE;
-				 * 2 after the first callback: tp_task_destroy + NONE; 3 first callback: tp_task_enable(0) + NONE */
+				 * 2 after the first callback: tp_task_destroy + NONE; 3 first callback: tp_task_enable(0) + NONE;
+				 * 4 (dispatch tasks) first callback returns NONE without stopping anything: the task must stay silent
+				 *   until the harness calls tp_task_enable(1) later, then it goes on like policy 0 */
 	uint8_t rearm;		/* when the window is full: reset it (offset = win_off, transfer_size = win_len) and CONTINUE */
 	uint32_t sndbuf;	/* SO_SNDBUF of the task's socket for send tasks (0 = default) */
 	tp_plans plans;
@@ -281,6 +325,9 @@ typedef struct {
 	uint32_t ncb;
 	c16_cb cb[C16_MAX_CB];
 	uint32_t cb_after_stop;		/* callbacks counted after stop/destroy/disable returned on the owner thread */
+	uint32_t cb_while_paused;	/* policy 4: callbacks between the declining return and tp_task_enable(1) */
+	uint8_t paused;			/* policy 4 really paused the task */
+	int32_t resume_rc;		/* tp_task_enable(1) */
 	uint64_t sent_total;		/* bytes the peer wrote (receive task) */
 	uint64_t peer_received;		/* bytes the peer read (send task) */
 	uint32_t peer_mismatch;		/* send task: first byte offset at which the peer's data differs from the window (UINT32_MAX none) */
@@ -292,6 +339,176 @@ typedef struct {
 	uint32_t base_live_fds;
 } c16_out;
 void c16_run(const c16_scn *scn, c16_out *out);
+
+/* ======================= C16 conn (tp_conn.c, drivers/C16_conn.cpp) -- begin =======================
+ * Second unit of C16: datagram receiver, accept, connect and connect_ex tasks. */
+/* ---- (1) datagram receiver ---- */
+#define C16P_MAX_DG 16
+#define C16P_MAX_CB 48
+#define C16P_BUF_MAX 512
+#define C16P_IMG (C16P_BUF_MAX + 64)
+typedef struct {
+	uint16_t len;		/* datagram payload size (0 allowed) */
+	uint8_t pause;		/* before this datagram: 0 none, 1 short sleep, 2 wait until everything sent so far was reported
+				 * (or the task stopped), 3 wait for one timeout report (short timeouts only) */
+} c16p_dgram;
+typedef struct {
+	uint8_t transport;	/* 0 AF_UNIX SOCK_DGRAM socketpair, 1 UDP on 127.0.0.1 */
+	uint16_t buf_size;	/* 8..C16P_BUF_MAX */
+	uint16_t used0, off0, tr0; /* io_buf cursors at the start: off0 + tr0 <= buf_size */
+	uint8_t reset_policy;	/* what the callback does after a datagram: 0 in-tree (IO_BUF_MARK_AS_EMPTY + IO_BUF_MARK_TRANSFER_ALL_FREE),
+				 * 1 re-arm the initial window (used0/off0/tr0), 2 accumulate: leave the cursors alone and do the in-tree
+				 * reset only when the window is exhausted */
+	uint16_t timeout_ms;	/* 0 none */
+	uint8_t close_on_destroy; /* TP_TASK_F_CLOSE_ON_DESTROY (the harness hands the socket over to the accounting table) */
+	uint8_t prequeue;	/* number of leading datagrams sent before the task is created */
+	uint8_t ndgrams;
+	c16p_dgram dg[C16P_MAX_DG];
+	uint8_t stop_at;	/* 0 never, k: in the k-th data callback ... */
+	uint8_t stop_how;	/* ... 1 tp_task_stop + NONE, 2 tp_task_destroy + NONE, 3 tp_task_enable(0) + NONE, 4 tp_task_stop + EOF,
+				 * 5 tp_task_stop + ERROR */
+	uint8_t timeout_action;	/* on a timeout report: 0 CONTINUE, 1 tp_task_stop + NONE */
+	uint8_t wait_timeout_end; /* after the last datagram wait for one timeout report (short timeouts only) */
+	tp_plans plans;
+} c16p_scn;
+typedef struct {
+	int32_t error;
+	uint64_t transferred;
+	uint64_t used, offset, tr_size;	/* buffer cursors as the callback found them */
+	uint8_t addr_null, on_owner;
+	uint8_t action;		/* what the callback then did: 0 nothing (CONTINUE), 1 in-tree reset, 2 re-armed initial window, 3 stopped (stop_how) */
+	uint16_t addr_family, addr_port; /* host order */
+	uint32_t addr_ip;	/* host order, AF_INET only */
+	int32_t ret;
+	uint64_t t_us;		/* harness clock at callback entry; used for "not earlier than the timeout" only */
+} c16p_cb;
+typedef struct {
+	int setup_rc, start_rc, hang, skipped;
+	int wait_failed;	/* 1 = a datagram never reported within the ceiling, 2 = timeout never reported */
+	uint32_t ncb;
+	c16p_cb cb[C16P_MAX_CB];
+	uint8_t image[C16P_MAX_CB][C16P_IMG];	/* 32 guard + buffer + 32 guard, as the callback found it */
+	uint8_t final_image[C16P_IMG];
+	uint32_t nsent;			/* datagrams 0..nsent-1 were sent completely */
+	uint32_t late_sent;		/* datagrams sent after the final destroy */
+	uint32_t cb_after_stop;
+	uint16_t peer_port;		/* UDP: port of the sending socket */
+	uint64_t t_create_us;		/* harness clock right before the task was created */
+	uint64_t run_us;
+	uint32_t base_live_fds;
+	tp_res_stats res;
+} c16p_out;
+void c16p_run(const c16p_scn *scn, c16p_out *out);
+uint8_t c16p_pattern(uint32_t dgram, uint32_t off);
+
+/* ---- (2) accept / connect / connect_ex ---- */
+#define C16C_MAX_CLI 10
+#define C16C_MAX_ADDR 4
+#define C16C_MAX_CB 80
+#define C16C_MAX_ATT 80
+typedef struct {
+	uint8_t pause;		/* before this client connects: 0 none, 1 short sleep, 2 wait until all earlier ones were accepted,
+				 * 3 wait for one timeout report (short timeouts only) */
+	uint8_t close_early;	/* client closes right after sending its id (before it may have been accepted) */
+} c16c_client;
+typedef struct {
+	uint8_t kind;		/* 0 TCP 127.0.0.1: bound socket that starts listening when opened (refuses before);
+				 * 1 AF_UNIX path that appears (bind+listen) when opened (connect() fails synchronously before);
+				 * 2 TCP listener with backlog 0 and a filled accept queue: never answers */
+	uint8_t open_after;	/* the address accepts from attempt number open_after+1 on; 255 = never */
+} c16c_addr;
+typedef struct {
+	uint8_t mode;		/* 0 tp_task_accept_create, 1 tp_task_bind_accept_create, 2 tp_task_connect_create, 3 tp_task_connect_ex_create */
+	uint8_t family;		/* modes 0-2: 0 AF_UNIX stream, 1 TCP 127.0.0.1 */
+	uint8_t close_on_destroy;
+	uint16_t timeout_ms;
+	/* accept */
+	uint8_t nclients, prequeue;
+	c16c_client cli[C16C_MAX_CLI];
+	int32_t backlog;	/* bind_accept: skt_opts.backlog */
+	uint8_t reuseaddr, keepalive;	/* bind_accept: skt_opts flags */
+	uint8_t stale_path;	/* bind_accept on AF_UNIX: a stale socket file exists at the path */
+	uint8_t stop_at;	/* accept: in the k-th accept callback; connect_ex: in the k-th failure report (0 never) */
+	uint8_t stop_how;	/* accept: 1 stop+NONE, 2 destroy+NONE, 3 enable(0)+NONE, 4 ident_close+NONE;
+				 * connect_ex: 1 return NONE, 2 destroy + NONE */
+	uint8_t timeout_action;	/* accept: on a timeout report 0 CONTINUE, 1 stop + NONE */
+	uint8_t wait_timeout_end;
+	/* connect */
+	uint8_t target;		/* 0 listening, 1 refusing (TCP only), 2 never answering (TCP only) */
+	uint8_t destroy_in_cb;	/* connect / connect_ex: destroy the task inside the final callback */
+	uint8_t cb_ret;		/* connect: value returned by the callback (0 NONE, 2 CONTINUE: documented as ignored) */
+	/* connect_ex */
+	uint8_t naddrs;
+	c16c_addr addrs[C16C_MAX_ADDR];
+	uint32_t max_tries, retry_delay_ms, time_limit_ms;
+	uint8_t f_rr, f_initial_delay, f_every;
+	int32_t protocol;
+	uint8_t cut_after;	/* destroy from the owner thread once this many connect attempts were seen (0 = let it finish) */
+	uint8_t arg_case;	/* 0 as generated, 1 conn_prms NULL, 2 tptask_ret NULL */
+	uint8_t known_timer_wa;	/* known finding active: the harness sets a non-zero timeout right before it destroys a connect_ex task so
+				 * that tp_task_stop() removes the retry-delay timer too (see notes/C16_conn.md) */
+	/* unit-local faults in the socket layer (library calls only) */
+	uint8_t sock_fault_k, accept_fault_k;
+	int32_t fault_errno;
+	char dir[100];		/* where AF_UNIX paths are created */
+	tp_plans plans;
+} c16c_scn;
+typedef struct {
+	uint8_t kind;		/* 0 accept cb, 1 connect cb, 2 connect_ex cb */
+	int32_t error;
+	int64_t skt;		/* accept: new socket; connect_ex: tp_task_ident_get() at callback time */
+	uint64_t addr_index;	/* connect_ex */
+	uint8_t addr_null, on_owner, nonblock, prms_ok;
+	uint16_t addr_family, addr_port;
+	uint32_t addr_ip;
+	uint16_t peer_port;	/* connect_ex success: getpeername() of the handed socket (TCP), 0 for AF_UNIX */
+	uint8_t peer_ok;	/* connect/connect_ex success: getpeername() worked */
+	uint32_t live_fds;	/* library-owned descriptors at callback time */
+	uint32_t natt;		/* connect attempts seen so far */
+	uint8_t action;		/* 0 none, 3 stopped/destroyed by policy */
+	int32_t ret;
+	uint64_t t_us;
+} c16c_cb;
+typedef struct {
+	uint8_t idx;		/* address index derived from the pointer passed to connect() */
+	int32_t rc_errno;	/* 0 connected at once, EINPROGRESS, or the synchronous failure */
+	uint8_t sock_failed;	/* the attempt died in socket() (unit-local fault): idx unknown */
+	uint64_t t_us;
+} c16c_att;
+typedef struct {
+	int setup_rc, start_rc, hang, skipped;
+	int wait_failed;	/* 1 = an expected callback never came within the ceiling, 2 = timeout never reported */
+	uint32_t ncb;
+	c16c_cb cb[C16C_MAX_CB];
+	uint32_t cb_after_stop;
+	uint32_t ncb_at_start_ret;	/* callbacks already made when the create call returned */
+	uint32_t natt_at_start_ret;
+	uint32_t natt;
+	c16c_att att[C16C_MAX_ATT];
+	/* accept */
+	uint32_t nconnected;		/* clients whose connect() succeeded */
+	uint8_t cli_connected[C16C_MAX_CLI + 1];
+	uint16_t cli_port[C16C_MAX_CLI + 1];	/* TCP: local port of client i */
+	int16_t acc_id[C16C_MAX_CB];	/* per accept callback with error 0 (in callback order): client id read from the socket, -1 none, -2 garbage */
+	uint32_t nacc;
+	uint32_t late_clients;		/* clients connected after the final destroy */
+	uint16_t listen_port;
+	uint8_t listen_nonblock;	/* bind_accept: the library-created listening socket is non-blocking */
+	/* connect */
+	int32_t connect_rc_errno;	/* what the harness' own connect() returned (mode 2) */
+	uint32_t listener_accepted;	/* mode 2/3: connections found on the harness listeners afterwards (sum) */
+	uint32_t lst_accepted[C16C_MAX_ADDR];
+	uint16_t lst_port[C16C_MAX_ADDR];
+	uint8_t cut_done;		/* the harness destroyed the task mid-flight (cut_after) */
+	uint8_t finished;		/* 1 success reported, 2 terminal failure reported, 3 stopped by policy */
+	uint32_t pool_live_fds;		/* library-owned descriptors once the pool runs, before the task exists */
+	uint32_t sock_injected, accept_injected;	/* unit-local faults that actually fired */
+	uint64_t t_create_us, t_end_us;
+	uint32_t base_live_fds;
+	tp_res_stats res;
+} c16c_out;
+void c16c_run(const c16c_scn *scn, c16c_out *out);
+/* ======================= C16 conn -- end ======================= */
 
 #ifdef __cplusplus
 }
